@@ -390,7 +390,7 @@ pub struct RawSentence {
 }
 
 pub fn sentence_timeout(s: &RawSentence) -> u64 {
-    if HAVE_CLOCK { TIMEOUTS[s.timeout_idx as usize % 4] } else { 0 }
+    if HAVE_CLOCK { [TIMEOUTS[0], TIMEOUTS[1], TIMEOUTS[2], TIMEOUTS[3], TIMEOUTS[7]][s.timeout_idx as usize % 5] } else { 0 }
 }
 
 /// constructs the sentence and its denotation
@@ -534,7 +534,7 @@ fn sentence_strategy(max_steps: usize) -> impl Strategy<Value = RawSentence> {
             2 => 1u16..=u16::MAX,
             1 => Just(u16::MAX),
         ],
-        0u8..4,
+        0u8..5,
         prop::collection::vec(gstep_strategy(), 0..=max_steps),
     )
         .prop_map(|(mask, timeout_idx, mut steps)| {
@@ -679,7 +679,7 @@ pub struct EncCase {
 }
 
 fn enc_timeout(c: &EncCase) -> u64 {
-    if HAVE_CLOCK { TIMEOUTS[c.timeout_idx as usize % 4] } else { 0 }
+    if HAVE_CLOCK { [TIMEOUTS[0], TIMEOUTS[1], TIMEOUTS[2], TIMEOUTS[3], TIMEOUTS[7]][c.timeout_idx as usize % 5] } else { 0 }
 }
 
 fn enc_parts(c: &EncCase) -> (Vec<Op>, PnReport) {
@@ -821,7 +821,7 @@ pub fn run_c12(ctx: &Ctx) -> Report {
             &proto,
             cases,
             || {
-                (history_strategy(Kind::Polling, max_len), 0u8..4, report_strategy(), any::<bool>(), any::<u8>(), 0u8..4)
+                (history_strategy(Kind::Polling, max_len), 0u8..5, report_strategy(), any::<bool>(), any::<u8>(), 0u8..4)
                     .prop_map(|(prior, timeout_idx, msg, lsb_first, chan_sel, carrier)| EncCase { prior, timeout_idx, msg, lsb_first, chan_sel, carrier })
             },
             |c: &EncCase| {
